@@ -156,17 +156,18 @@ type Worker struct {
 	interp *interpreter
 
 	// per path
-	prefix    []Decision
-	pos       int
-	taken     []Decision
-	pc        []*sym.Term
-	vars      []*NondetVar
-	chooses   []ChooseRec
-	nameCount map[string]int
-	usedUF    bool
-	observes  []string
-	domains   map[*sym.Term]string // symbolic bytes with a known finite alphabet
-	knownHit  map[string]*sym.Term // known-finding predicates true on this path (id -> cond term or nil=concrete true)
+	prefix     []Decision
+	pos        int
+	taken      []Decision
+	pc         []*sym.Term
+	vars       []*NondetVar
+	chooses    []ChooseRec
+	nameCount  map[string]int
+	usedUF     bool
+	observes   []string
+	domains    map[*sym.Term]string // symbolic bytes with a known finite alphabet
+	knownSites map[string]string    // panic site substring -> known-finding id
+	knownHit   map[string]*sym.Term // known-finding predicates true on this path (id -> cond term or nil=concrete true)
 
 	local [][]Decision
 	cov   map[*ssa.Function]map[ssa.Instruction]bool
@@ -508,7 +509,27 @@ func (w *Worker) reportViolation(kind, label string, extra *sym.Term, fr *frame)
 	eng := w.eng
 	// known-finding predicates: is the violation inside a listed finding?
 	known := ""
-	if len(w.knownHit) > 0 {
+	if kind == "panic" && len(w.knownSites) > 0 {
+		// innermost repository (non-harness) function on the target stack
+		st := w.interp.stack
+		for k := len(st) - 1; k >= 0; k-- {
+			if isRepoPkg(st[k].Pkg) && !strings.Contains(st[k].Name(), "verif") {
+				name := st[k].String()
+				sites := make([]string, 0, len(w.knownSites))
+				for site := range w.knownSites {
+					sites = append(sites, site)
+				}
+				sort.Strings(sites)
+				for _, site := range sites {
+					if strings.Contains(name, site) {
+						known = w.knownSites[site]
+					}
+				}
+				break
+			}
+		}
+	}
+	if known == "" && len(w.knownHit) > 0 {
 		ids := make([]string, 0, len(w.knownHit))
 		for id := range w.knownHit {
 			ids = append(ids, id)
@@ -833,6 +854,7 @@ func (w *Worker) runPath(prefix []Decision) {
 	w.usedUF = false
 	w.observes = nil
 	w.knownHit = nil
+	w.knownSites = nil
 	w.domains = nil
 	i := w.interp
 	i.steps, i.depth = 0, 0
